@@ -536,6 +536,83 @@ func (e *lxEnv) steps(list []ast.Stmt, loop string, res *lxResult) bool {
 	return true
 }
 
+// lxCmpToLess rewrites the body of a three-way comparator (negative: first
+// operand first) into the body of the strict "less" it induces:
+//   return -1 -> return true;  return 1, return 0 -> return false
+//   return cmp.Compare(a, b) -> return a < b
+//   if c { return -1 }; return 1   (as a block) -> return c
+// Anything else is left alone and is then not recognised as a chain.
+func lxCmpToLess(body *ast.BlockStmt) *ast.BlockStmt {
+	isInt := func(e ast.Expr, v string) bool {
+		if u, ok := e.(*ast.UnaryExpr); ok && u.Op == token.SUB {
+			if l, ok := u.X.(*ast.BasicLit); ok {
+				return "-"+l.Value == v
+			}
+		}
+		l, ok := e.(*ast.BasicLit)
+		return ok && l.Value == v
+	}
+	ident := func(n string) *ast.Ident { return &ast.Ident{Name: n} }
+	var conv func(list []ast.Stmt) []ast.Stmt
+	retConv := func(r *ast.ReturnStmt) ast.Stmt {
+		if len(r.Results) != 1 {
+			return r
+		}
+		e := r.Results[0]
+		switch {
+		case isInt(e, "-1"):
+			return &ast.ReturnStmt{Return: r.Return, Results: []ast.Expr{ident("true")}}
+		case isInt(e, "1"), isInt(e, "0"):
+			return &ast.ReturnStmt{Return: r.Return, Results: []ast.Expr{ident("false")}}
+		}
+		if call, ok := e.(*ast.CallExpr); ok && len(call.Args) == 2 {
+			if sel, ok := call.Fun.(*ast.SelectorExpr); ok && sel.Sel.Name == "Compare" {
+				if id, ok := sel.X.(*ast.Ident); ok && id.Name == "cmp" {
+					return &ast.ReturnStmt{Return: r.Return, Results: []ast.Expr{&ast.BinaryExpr{X: call.Args[0], Op: token.LSS, Y: call.Args[1], OpPos: call.Pos()}}}
+				}
+			}
+		}
+		return r
+	}
+	conv = func(list []ast.Stmt) []ast.Stmt {
+		var out []ast.Stmt
+		for i := 0; i < len(list); i++ {
+			switch st := list[i].(type) {
+			case *ast.ReturnStmt:
+				out = append(out, retConv(st))
+			case *ast.IfStmt:
+				// if c { return -1 }; return 1  ->  return c
+				if i+1 < len(list) && st.Else == nil && st.Init == nil && len(st.Body.List) == 1 {
+					r1, ok1 := st.Body.List[0].(*ast.ReturnStmt)
+					r2, ok2 := list[i+1].(*ast.ReturnStmt)
+					if ok1 && ok2 && len(r1.Results) == 1 && len(r2.Results) == 1 && isInt(r1.Results[0], "-1") && isInt(r2.Results[0], "1") && i+2 == len(list) {
+						if _, isCall := st.Cond.(*ast.CallExpr); !isCall {
+							out = append(out, &ast.ReturnStmt{Return: st.If, Results: []ast.Expr{st.Cond}})
+							i++
+							continue
+						}
+					}
+				}
+				n := *st
+				n.Body = &ast.BlockStmt{Lbrace: st.Body.Lbrace, List: conv(st.Body.List), Rbrace: st.Body.Rbrace}
+				out = append(out, &n)
+			case *ast.ForStmt:
+				n := *st
+				n.Body = &ast.BlockStmt{Lbrace: st.Body.Lbrace, List: conv(st.Body.List), Rbrace: st.Body.Rbrace}
+				out = append(out, &n)
+			case *ast.RangeStmt:
+				n := *st
+				n.Body = &ast.BlockStmt{Lbrace: st.Body.Lbrace, List: conv(st.Body.List), Rbrace: st.Body.Rbrace}
+				out = append(out, &n)
+			default:
+				out = append(out, st)
+			}
+		}
+		return out
+	}
+	return &ast.BlockStmt{Lbrace: body.Lbrace, List: conv(body.List), Rbrace: body.Rbrace}
+}
+
 // lxDelegate looks through a comparator whose whole body is
 // `return f(A, B)` with A and B mirror images and f a package-level function
 // of two parameters: the chain to analyse is f's body.
@@ -821,6 +898,12 @@ func runLX(c *Ctx) (obls []Obl) {
 					if id, ok := sel.X.(*ast.Ident); ok && id.Name == "sort" && (sel.Sel.Name == "SliceStable" || sel.Sel.Name == "Slice") && len(call.Args) == 2 {
 						if fl, ok := call.Args[1].(*ast.FuncLit); ok {
 							lit, sortCall = fl, call
+						}
+					}
+					if id, ok := sel.X.(*ast.Ident); ok && id.Name == "slices" && (sel.Sel.Name == "SortStableFunc" || sel.Sel.Name == "SortFunc") && len(call.Args) == 2 {
+						if fl, ok := call.Args[1].(*ast.FuncLit); ok {
+							// a three-way comparator: analysed as the "less" it induces
+							lit, sortCall = &ast.FuncLit{Type: fl.Type, Body: lxCmpToLess(fl.Body)}, call
 						}
 					}
 				}
